@@ -126,7 +126,7 @@ def native_validate(cfgname, n, I, sim, locs, sy):
         for lc in locs:
             if lc.label not in sy: continue
             orig = sy[lc.label][1]
-            if lc.field in ('rand_seed', 'output_timing_last', 'save_messages') or 'walltime' in lc.field: continue
+            if lc.field in ('rand_seed', 'output_timing_last', 'save_messages') or lc.field.startswith('walltime'): continue
             a = lc.naddr(ns)
             if a is None: bad.append((lc.label, 'missing natively')); continue
             if lc.ty.kind == 'fp':
@@ -225,7 +225,7 @@ def run_r3(u):
     l1 = P.locations(I, sim, tab, opts); l2 = {lc.label: lc for lc in P.locations(I, sim2, tab, opts)}
     nsym = sum(1 for v in sy.values() if v[2])
     for lc in l1:
-        if 'walltime' in lc.field: continue
+        if lc.field.startswith('walltime'): continue
         p1 = lc.ptr(I, sim); lc2 = l2.get(lc.label); p2 = lc2.ptr(I, sim2) if lc2 else None
         if p1 is None and p2 is None: continue
         if p1 is None or p2 is None:
